@@ -687,3 +687,113 @@ twin('c13-painter-nparray', 'C13', SP, 'StaticVisualization1D.drawObjFunction', 
 twin('c13-status-hoisted', 'C13', P, 'Process.Solve',
      '        for listener in self.__listeners:\n            status = self.method.CheckStopCondition()\n            listener.OnMethodStop',
      '        status = self.method.CheckStopCondition()\n        for listener in self.__listeners:\n            listener.OnMethodStop')
+
+# ----------------------------------------------------------------------------- C05
+fire('c05-bounds-dropped', 'C05', P, 'Process.DoLocalRefinement', "options={'maxiter': self.localMethodIterationCount}, bounds=bounds)",
+     "options={'maxiter': self.localMethodIterationCount})", 'R05.4')
+fire('c05-bounds-swapped', 'C05', P, 'Process.DoLocalRefinement',
+     'Bounds(self.task.problem.lowerBoundOfFloatVariables, self.task.problem.upperBoundOfFloatVariables)',
+     'Bounds(self.task.problem.upperBoundOfFloatVariables, self.task.problem.lowerBoundOfFloatVariables)', 'R05.4')
+fire('c05-method-bfgs', 'C05', P, 'Process.DoLocalRefinement', "x0=startPoint, method='Nelder-Mead'", "x0=startPoint, method='BFGS'", 'R05.4')
+fire('c05-x0-elsewhere', 'C05', P, 'Process.DoLocalRefinement', 'startPoint = result.bestTrials[0].point.floatVariables',
+     'startPoint = self.task.problem.lowerBoundOfFloatVariables', 'R05.5')
+fire('c05-callable-other-point', 'C05', P, 'Process.problemCalculate', 'point = Point(y, [])',
+     'point = Point(2 * y, [])', 'R05.5')
+fire('c05-r-after', 'C05', EV, 'Evolvent.__GetYonX',
+     '            r *= 0.5\n            it = l\n            for i in range(0, self.numberOfFloatVariables):\n                iu[i] *= iw[i]\n                iw[i] *= -iv[i]\n                self.yValues[i] += r * iu[i]\n',
+     '            it = l\n            for i in range(0, self.numberOfFloatVariables):\n                iu[i] *= iw[i]\n                iw[i] *= -iv[i]\n                self.yValues[i] += r * iu[i]\n            r *= 0.5\n',
+     'R05.2')
+fire('c05-r0-one', 'C05', EV, 'Evolvent.__GetYonX', '        r = 0.5\n        it = 0\n', '        r = 1.0\n        it = 0\n', 'R05.2')
+fire('c05-r-slow', 'C05', EV, 'Evolvent.__GetYonX', '            r *= 0.5\n            it = l', '            r *= 0.75\n            it = l',
+     'R05.2')
+fire('c05-orientation-sum', 'C05', EV, 'Evolvent.__GetYonX', '                iu[i] *= iw[i]\n', '                iu[i] += iw[i]\n',
+     'R05.2')
+fire('c05-orientation-digit', 'C05', EV, 'Evolvent.__CalculateNode', '                u[i] = j\n', '                u[i] = j * 2\n',
+     'R05.2')
+fire('c05-orientation-float', 'C05', EV, 'Evolvent.__CalculateNode', '                k2 = -1\n', '                k2 = -iff\n',
+     'R05.2')
+fire('c05-affine-plus', 'C05', EV, 'Evolvent.__TransformP2D',
+     'self.upperBoundOfFloatVariables[i] - self.lowerBoundOfFloatVariables[i]) + \\',
+     'self.upperBoundOfFloatVariables[i] + self.lowerBoundOfFloatVariables[i]) + \\', 'R05.3')
+fire('c05-affine-nocentre', 'C05', EV, 'Evolvent.__TransformP2D',
+     '(self.upperBoundOfFloatVariables[i] + self.lowerBoundOfFloatVariables[i]) / 2',
+     '(self.upperBoundOfFloatVariables[i] + self.lowerBoundOfFloatVariables[i])', 'R05.3')
+fire('c05-bounds-swapped-solver', 'C05', SV, 'Solver.__init__',
+     'Evolvent(problem.lowerBoundOfFloatVariables, problem.upperBoundOfFloatVariables,',
+     'Evolvent(problem.upperBoundOfFloatVariables, problem.lowerBoundOfFloatVariables,', 'R05.3')
+fire('c05-init-swapped', 'C05', EV, 'Evolvent.__init__', 'self.lowerBoundOfFloatVariables = np.copy(lowerBoundOfFloatVariables)',
+     'self.lowerBoundOfFloatVariables = np.copy(upperBoundOfFloatVariables)', 'R05.3')
+fire('c05-point-shifted', 'C05', P, 'Process.DoGlobalIteration', '                self.method.CalculateFunctionals(newpoint)\n',
+     '                newpoint.point.floatVariables = newpoint.point.floatVariables * 1.001\n                self.method.CalculateFunctionals(newpoint)\n',
+     'R05.1')
+fire('c05-eval-old', 'C05', P, 'Process.DoGlobalIteration', 'self.method.CalculateFunctionals(newpoint)',
+     'self.method.CalculateFunctionals(oldpoint)', None)
+twin('c05-affine-rewritten', 'C05', EV, 'Evolvent.__TransformP2D',
+     '            self.yValues[i] = self.yValues[i] * (\n                        self.upperBoundOfFloatVariables[i] - self.lowerBoundOfFloatVariables[i]) + \\\n                        (self.upperBoundOfFloatVariables[i] + self.lowerBoundOfFloatVariables[i]) / 2',
+     '            lo, hi = self.lowerBoundOfFloatVariables[i], self.upperBoundOfFloatVariables[i]\n            self.yValues[i] = 0.5 * (hi + lo) + (hi - lo) * self.yValues[i]')
+twin('c05-r-div2', 'C05', EV, 'Evolvent.__GetYonX', '            r *= 0.5\n            it = l', '            r = r / 2\n            it = l')
+twin('c05-bounds-kw', 'C05', P, 'Process.DoLocalRefinement',
+     'Bounds(self.task.problem.lowerBoundOfFloatVariables, self.task.problem.upperBoundOfFloatVariables)',
+     'Bounds(lb=self.task.problem.lowerBoundOfFloatVariables, ub=self.task.problem.upperBoundOfFloatVariables)')
+
+# ----------------------------------------------------------------------------- C07
+fire('c07-isclose', 'C07', EV, 'Evolvent.__GetYonX', 'if _x == 1.0:', 'if math.isclose(_x, 1.0):', 'R07.1')
+fire('c07-npisclose', 'C07', EV, 'Evolvent.__GetYonX', 'if _x == 1.0:', 'if np.isclose(d, 1.0):', None)
+fire('c07-abs-tol', 'C07', EV, 'Evolvent.__GetYonX', 'if _x == 1.0:', 'if abs(_x - 1.0) < 1e-12:', None)
+fire('c07-end-digit', 'C07', EV, 'Evolvent.__GetYonX', 'iis = self.nexpExtended - 1.0', 'iis = self.nexpExtended', 'R07.2')
+fire('c07-end-remainder', 'C07', EV, 'Evolvent.__GetYonX', '                iis = self.nexpExtended - 1.0\n                d = 0.0',
+     '                iis = self.nexpExtended - 1.0\n                d = 1.0', 'R07.2')
+fire('c07-digit-round', 'C07', EV, 'Evolvent.__GetYonX', 'iis = int(d)', 'iis = round(d)', 'R07.2')
+fire('c07-no-remainder', 'C07', EV, 'Evolvent.__GetYonX', '                iis = int(d)\n                d -= iis\n',
+     '                iis = int(d)\n', 'R07.2')
+fire('c07-radix-wrong', 'C07', EV, 'Evolvent.__GetYonX', 'd *= self.nexpExtended', 'd *= self.numberOfFloatVariables', 'R07.2')
+fire('c07-radix-triple', 'C07', EV, 'Evolvent.__init__', 'self.nexpExtended += self.nexpExtended', 'self.nexpExtended += 2 * self.nexpExtended',
+     'R07.3')
+fire('c07-radix-loop', 'C07', EV, 'Evolvent.__init__', 'for i in range(0, self.numberOfFloatVariables):\n            self.nexpExtended',
+     'for i in range(1, self.numberOfFloatVariables):\n            self.nexpExtended', 'R07.3')
+fire('c07-radix-start', 'C07', EV, 'Evolvent.__init__', 'self.nexpExtended: np.double = 1.0', 'self.nexpExtended: np.double = 2.0',
+     'R07.3')
+twin('c07-ge-one', 'C07', EV, 'Evolvent.__GetYonX', 'if _x == 1.0:', 'if 1.0 == _x:')
+twin('c07-digit-split', 'C07', EV, 'Evolvent.__GetYonX', '                d *= self.nexpExtended\n                iis = int(d)\n                d -= iis\n',
+     '                d = d * self.nexpExtended\n                iis = int(d)\n                d = d - iis\n')
+
+# ----------------------------------------------------------------------------- C09
+fire('c09-n1-forward', 'C09', EV, 'Evolvent.__GetYonX', 'self.yValues[0] = _x - 0.5', 'self.yValues[0] = _x - 0.25', 'R09.1')
+fire('c09-n1-inverse', 'C09', EV, 'Evolvent.__GetXonY', 'x = self.yValues[0] + 0.5', 'x = self.yValues[0] + 0.25', 'R09.1')
+fire('c09-d2p-factor', 'C09', EV, 'Evolvent.__TransformD2P',
+     '                        (self.upperBoundOfFloatVariables[i] - self.lowerBoundOfFloatVariables[i])',
+     '                        (self.upperBoundOfFloatVariables[i] + self.lowerBoundOfFloatVariables[i])', 'R09.2')
+fire('c09-d2p-centre', 'C09', EV, 'Evolvent.__TransformD2P',
+     'self.upperBoundOfFloatVariables[i] + self.lowerBoundOfFloatVariables[i]) / 2) / \\',
+     'self.upperBoundOfFloatVariables[i] + self.lowerBoundOfFloatVariables[i])) / \\', 'R09.2')
+fire('c09-inverse-levels', 'C09', EV, 'Evolvent.__GetXonY', 'for j in range(0, self.evolventDensity):',
+     'for j in range(0, self.evolventDensity - 1):', None)
+fire('c09-inverse-radix', 'C09', EV, 'Evolvent.__GetXonY', 'r1 = r1 / self.nexpExtended', 'r1 = r1 / 2', 'R09.3')
+fire('c09-inverse-weight', 'C09', EV, 'Evolvent.__GetXonY', '            r1 = r1 / self.nexpExtended\n            x += r1 * iis',
+     '            x += r1 * iis\n            r1 = r1 / self.nexpExtended', 'R09.3')
+fire('c09-inverse-start', 'C09', EV, 'Evolvent.__GetXonY', '        r1 = 1.0\n        x = 0.0', '        r1 = 1.0\n        x = 0.5', 'R09.3')
+fire('c09-siblings', 'C09', EV, 'Evolvent.GetPreimages', '        self.__TransformD2P()\n        x = self.__GetXonY()',
+     '        x = self.__GetXonY()', 'R09.4')
+fire('c09-dtype', 'C09', EV, 'Evolvent.GetInverseImage', 'self.yValues = np.array(y, dtype=np.double)', 'self.yValues = np.copy(y)',
+     'R17.3')
+twin('c09-n1-half', 'C09', EV, 'Evolvent.__GetXonY', 'x = self.yValues[0] + 0.5', 'x = 1 / 2 + self.yValues[0]')
+twin('c09-weight-mult', 'C09', EV, 'Evolvent.__GetXonY', '            r1 = r1 / self.nexpExtended\n            x += r1 * iis',
+     '            r1 /= self.nexpExtended\n            x = x + iis * r1')
+
+# ----------------------------------------------------------------------------- C20
+fire('c20-density-dropped', 'C20', SV, 'Solver.__init__', 'problem.numberOfFloatVariables, parameters.evolventDensity)',
+     'problem.numberOfFloatVariables)', 'R20.1')
+fire('c20-density-const', 'C20', SV, 'Solver.__init__', 'problem.numberOfFloatVariables, parameters.evolventDensity)',
+     'problem.numberOfFloatVariables, 10)', 'R20.1')
+fire('c20-params-ignore', 'C20', 'iOpt/solver_parametrs.py', 'SolverParameters.__init__', 'self.evolventDensity = evolventDensity',
+     'self.evolventDensity = 10', 'R20.1')
+fire('c20-ctor-ignore', 'C20', EV, 'Evolvent.__init__', 'self.evolventDensity = evolventDensity', 'self.evolventDensity = 10',
+     'R20.2')
+fire('c20-loop-const', 'C20', EV, 'Evolvent.__GetYonX', 'for j in range(0, self.evolventDensity):', 'for j in range(0, 10):', None)
+fire('c20-loop-capped', 'C20', EV, 'Evolvent.__GetXonY', 'for j in range(0, self.evolventDensity):',
+     'for j in range(0, min(self.evolventDensity, 10)):', None)
+fire('c20-density-rewritten', 'C20', EV, 'Evolvent.SetBounds', '        self.upperBoundOfFloatVariables = np.copy(upperBoundOfFloatVariables)',
+     '        self.upperBoundOfFloatVariables = np.copy(upperBoundOfFloatVariables)\n        self.evolventDensity = 10', 'R20.3')
+twin('c20-density-kw', 'C20', SV, 'Solver.__init__', 'problem.numberOfFloatVariables, parameters.evolventDensity)',
+     'problem.numberOfFloatVariables, evolventDensity=parameters.evolventDensity)')
+twin('c20-loop-range1', 'C20', EV, 'Evolvent.__GetYonX', 'for j in range(0, self.evolventDensity):', 'for j in range(self.evolventDensity):')
